@@ -123,7 +123,8 @@ def gen_scenario(prng, tier, index, focus):
     remove = "none" if focus == "C11" and prng.random() < 0.7 else prng.choice(("none", "absent", "zero", "mixed"))
     target, removed = gen_target(prng, spec, mode, remove)
     sc = {"variant": variant, "spec": spec, "target": target, "target_mode": mode, "pairings_removed": removed,
-          "search_limit": prng.choice((None, 1, 2, 3, 5, 10, 25)), "K": prng.randrange(1, 7 if not big else 10),
+          "search_limit": prng.choice((None, 1, 2, 3, 5, 10, 25)) if prng.random() > 0.05 else prng.choice((24, 26, 100, 1000, 2 ** 31)),
+          "K": prng.randrange(1, 7 if not big else 10),
           "target_order": prng.sample(range(len(topos)), len(topos)) if prng.random() < (0.85 if focus == "C12" else 0.5) else None,
           "policy": prng.choice(({}, {}, {}, {"int": "mix", "p": 0.2}, {"int": "mix", "p": 0.4}, {"int": "mix", "p": 0.6}, {"float": "lo"},
                                  {"float": "hi"}, {"float": "extreme"}, {"float": "mix", "int": "mix", "p": 0.3},
